@@ -98,23 +98,23 @@ func Run(args []string) error {
 }
 
 type node struct {
-	seed  int64
-	ours  uint32
-	rng   *rand.Rand
-	bL1   *bridgesync.BridgeSync
-	bL2   *bridgesync.BridgeSync
-	info  *l1infotreesync.L1InfoTreeSync
-	gers  *lastgersync.LastGERSync
-	h     http.Handler
-	dictA *names.Dict // exit trees (L1 and L2 leaf atoms are disjoint)
-	dictU *names.Dict // rollup exit tree
-	refL1 *names.AppendTree
-	refL2 *names.AppendTree
-	uref  *names.UpdTree
-	ucur  map[int]common.Hash // rollup exit tree leaves now
-	nL1   int                 // L1 deposits so far
-	nL2   int
-	infos []infoRec
+	seed   int64
+	ours   uint32
+	rng    *rand.Rand
+	bL1    *bridgesync.BridgeSync
+	bL2    *bridgesync.BridgeSync
+	info   *l1infotreesync.L1InfoTreeSync
+	gers   *lastgersync.LastGERSync
+	h      http.Handler
+	dictA  *names.Dict // exit trees (L1 and L2 leaf atoms are disjoint)
+	dictU  *names.Dict // rollup exit tree
+	refL1  *names.AppendTree
+	refL2  *names.AppendTree
+	uref   *names.UpdTree
+	ucur   map[int]common.Hash // rollup exit tree leaves now
+	nL1    int                 // L1 deposits so far
+	nL2    int
+	infos  []infoRec
 	gerBlk uint64
 }
 
